@@ -41,6 +41,11 @@ pub fn gen_cfg(r: &mut Rng, p: &CfgProfile) -> WorldCfg {
     }
     cfg.key_seed = r.next_u64();
     cfg.dev_seed = r.next_u64();
+    if r.chance(1, 12) {
+        // the default one-entry downlink queue under an application that rarely collects its downlinks
+        cfg.lazy_app = true;
+        cfg.board = 0;
+    }
     cfg
 }
 
@@ -53,8 +58,13 @@ pub fn maybe_phy(r: &mut Rng, cfg: &mut WorldCfg, num: u64, den: u64) {
     use physim::rig::ChipKind;
     let chip = *r.pick(&[ChipKind::Sx1261, ChipKind::Sx1262, ChipKind::Stm32wl, ChipKind::Sx1272, ChipKind::Sx1276]);
     cfg.phy = Some(crate::stack::PhyCfg { chip, tcxo: r.chance(1, 2), dcdc: r.chance(1, 2), rx_boost: r.chance(1, 2), tx_boost: r.chance(1, 2) });
-    cfg.board = 0;
-    cfg.small_buffer = false;
+    // the full-stack device is the (22 dBm, +3 dBi) board; one in eight has the 64-byte radio buffer
+    cfg.board = if r.chance(1, 2) { 1 } else { 4 };
+    cfg.lazy_app = false;
+    cfg.small_buffer = r.chance(1, 8);
+    if cfg.small_buffer && !matches!(chip, ChipKind::Sx1262) {
+        cfg.phy = Some(crate::stack::PhyCfg { chip: ChipKind::Sx1276, ..cfg.phy.unwrap() });
+    }
     cfg.buffer_ms = None;
 }
 
